@@ -5,12 +5,12 @@ import random
 import vlib
 
 AREA = "bodylimit"
-EXS = ["bytes", "string", "json", "form", "tbl"]
+EXS = ["bytes", "string", "json", "form", "tbl", "mpfield"]
 
 
 def from_model(tc, scale, ex, coding="identity"):
     return {"ex": ex, "limit": tc["limit"] * scale, "chunks": [c * scale for c in tc["chunks"]],
-            "declared": -1 if tc["declared"] < 0 else tc["declared"] * scale, "coding": coding, "wire_chunk": 64}
+            "declared": -1 if tc["declared"] < 0 or ex == "mpfield" else tc["declared"] * scale, "coding": coding, "wire_chunk": 64}
 
 
 def directed(rnd, quick):
@@ -28,6 +28,8 @@ def directed(rnd, quick):
                     for ex in EXS:
                         if ex in ("json", "form") and total < 3:
                             continue
+                        if ex == "mpfield" and declared != -1:
+                            continue        # the declared length of a multipart request is that of the whole body
                         cases.append({"ex": ex, "limit": limit, "chunks": comp, "declared": declared, "coding": "identity"})
             for coding in ("gzip", "deflate", "br", "zstd"):
                 for ex in ("bytes", "json", "string"):
